@@ -122,13 +122,30 @@ func genNext(tier string, out *vlib.Out) {
 		"new exp 2 9223372036854775807 2\nburst 3000 4 1",
 		"new exp 7 7 4\nburst 3000 8 1\nburst 1000 3 70",
 		"new exp 1 9223372036854775807 0\nburst 300 4 20",
+		// the extreme budgets: MaxInt32 ("practically unlimited", every call granted without an `unlimited` shortcut),
+		// MaxInt32-1, MinInt32 and other negatives (unlimited), on both strategies; max interval == initial interval
+		"new fixed 7 2147483647\n" + rep("next", 5) + "\nburn 3000\nnext\nconc 4 20\nnext",
+		"new exp 3 100 2147483647\n" + rep("next", 9) + "\nburn 3000\nnext\nconc 4 20\nnext",
+		"new fixed 7 2147483646\n" + rep("next", 3),
+		"new exp 5 5 2147483646\n" + rep("next", 3),
+		"new fixed 7 -2147483648\n" + rep("next", 5) + "\nburn 3000\nnext",
+		"new exp 3 100 -2147483648\n" + rep("next", 9) + "\nburn 3000\nnext",
+		"new fixed 7 -1\n" + rep("next", 5) + "\nburst 200 4 3",
+		"new fixed 1 -7\n" + rep("next", 3),
+		"new exp 1 1 -2\n" + rep("next", 4),
+		"new exp 9223372036854775807 9223372036854775807 2147483647\nnext\nnext\nnext",
+		"new fixed 9223372036854775807 1\nnext\nnext",
+		"new fixed -9223372036854775808 1",
+		"new exp -9223372036854775808 -9223372036854775808 0",
+		"new exp 1 0 0",
+		"new exp 1 -1 3",
 	}
 	for _, c := range corpus {
 		emit(out, c)
 	}
 	initials := []int64{1, 2, 3, 7, 1000, 1000000, 100000000, 1 << 31, 3037000499, 3037000500, (1 << 40) + 1, 1 << 61,
 		(1 << 62) - 1, 1 << 62, (1 << 62) + 1, (1 << 62) + 2, maxI64 - 1, maxI64}
-	budgets := []int{-1, 0, 1, 2, 3, 4, 5, 5, 70, 200, 400}
+	budgets := []int{-1, 0, 1, 2, 3, 4, 5, 5, 70, 200, 400, -1, 0, 1, 2, 3, 4, 5, 5, 70, 200, 400, math.MaxInt32, math.MinInt32, -2}
 	for c := 0; c < cases; c++ {
 		var initial int64
 		if r.Chance(70) {
